@@ -400,6 +400,12 @@ func (s *solutionImpl) addInitialSolution(m Model) error {
 			}
 			allPlanUnits[solutionPlanUnit] = true
 
+			// A unit is planned as a whole or not at all: if another member of
+			// the enclosing unit has been rejected, this member stays unplanned.
+			if infeasiblePlanUnits[solutionPlanUnit] {
+				continue
+			}
+
 		ModelStopLoop:
 			for modelStopIdx, modelStop := range initialModelStops {
 				if len(stopPositions) == len(planUnit.SolutionStops()) {
@@ -488,6 +494,9 @@ func (s *solutionImpl) addInitialSolution(m Model) error {
 						)
 					}
 					infeasiblePlanUnits[solutionPlanUnit] = true
+					if err := s.detachInitialMembers(solutionPlanUnit, solutionVehicle); err != nil {
+						return err
+					}
 					continue PlanUnitLoop
 				}
 			}
@@ -501,7 +510,7 @@ func (s *solutionImpl) addInitialSolution(m Model) error {
 				return err
 			}
 			if constraint != nil {
-				if planUnit.IsFixed() {
+				if solutionPlanUnit.IsFixed() {
 					return fmt.Errorf(
 						reportInfeasibleInitialSolution(
 							move,
@@ -513,6 +522,9 @@ func (s *solutionImpl) addInitialSolution(m Model) error {
 					position.Stop().detach()
 				}
 				infeasiblePlanUnits[solutionPlanUnit] = true
+				if err := s.detachInitialMembers(solutionPlanUnit, solutionVehicle); err != nil {
+					return err
+				}
 				continue
 			}
 		}
@@ -572,6 +584,29 @@ func (s *solutionImpl) addInitialSolution(m Model) error {
 	}
 
 	return nil
+}
+
+// detachInitialMembers takes the members of a rejected plan unit that were
+// attached to the vehicle before the rejection off the vehicle again and
+// brings the values of the remaining stops up-to-date.
+func (s *solutionImpl) detachInitialMembers(
+	solutionPlanUnit SolutionPlanUnit,
+	solutionVehicle SolutionVehicle,
+) error {
+	detached := false
+	for _, member := range solutionPlanUnit.PlannedPlanStopsUnits() {
+		for _, solutionStop := range member.SolutionStops() {
+			if solutionStop.IsPlanned() && solutionStop.Vehicle().Index() == solutionVehicle.Index() {
+				solutionStop.detach()
+				detached = true
+			}
+		}
+	}
+	if !detached {
+		return nil
+	}
+	_, _, err := s.isFeasible(solutionVehicle.First().Index(), true)
+	return err
 }
 
 type solutionImpl struct {
